@@ -53,6 +53,9 @@ class C03(Spec):
     monitor = True
     shrink_sep = " "
     harness_timeout = {"quick": 900, "thorough": 3600}
+    # the runtime's faketime clock can live-lock with many Ps (all goroutines asleep, clock not advancing);
+    # main() also calls runtime.GOMAXPROCS(1)
+    harness_env = {"GOMAXPROCS": "1"}
     rule = ("race line = wheel config + per-thread op chains + schedule (thread ids; 0 = ticker), executed on the real "
             "code under the controlled scheduler; compared: the access log (thread, hook site, position/slot/channel) and "
             "for every request the counters at invocation/return, the returned channel and the tick that closes it. "
@@ -84,6 +87,11 @@ class C03(Spec):
                 return self.oracle_time(w[1:], impl)
             if w[0] == "pure":
                 return self.oracle_pure(w[1:], impl)
+            if w[0] == "ctor":
+                exp = "P" if int(w[1]) <= 0 or int(w[2]) <= 0 else "ok"
+                if impl != exp:
+                    return ("ctor", "NewWheel(%s, %s): expected %s, got %s" % (w[1], w[2], exp, impl))
+                return None
         except (ValueError, IndexError, KeyError) as e:
             return ("malformed", "cannot parse observation (%s): %s" % (e, impl[:200]))
         return None
@@ -234,6 +242,8 @@ class C03(Spec):
             return False
         if w == "time":
             return any(c.isdigit() for c in impl.split("=", 1)[-1])
+        if w == "ctor":
+            return impl == "ok"
         return "k" in impl
 
 
